@@ -144,9 +144,11 @@ class World:
     def listed(self, pid=None):
         return self.state != "gone"
 
-    def probe_fault(self, plat):
-        """Called by every OS access made inside a ladder probe: raises the probe error if one is planned."""
-        if self.suspend and self.probe_err is not None:
+    def probe_fault(self, plat, only=None):
+        """Called by every OS access made inside a ladder probe: raises the probe error if one is planned.
+        only = the errnos that system call can really return (kill(2) with signal 0: ESRCH, EPERM); a planned error
+        outside that set is not injected there -- the call then answers truthfully."""
+        if self.suspend and self.probe_err is not None and (only is None or self.probe_err in only):
             e = make_error(plat, self.probe_err)
             self.probe_raised.append(e)
             raise e
@@ -426,7 +428,7 @@ class Layer:
                 return L.native("os.waitpid", real, (pid, flags), {})
 
             def kill(self, pid, sig):                    # only reached from the private copy of _psposix
-                L.world.probe_fault(L.plat)
+                L.world.probe_fault(L.plat, only=("ESRCH", "EPERM"))
                 if pid == L.world.pid and not L.world.listed():
                     raise ProcessLookupError(_errno.ESRCH, "No such process")
                 if pid != L.world.pid and pid != 1:
